@@ -1,7 +1,7 @@
 (* UID/GID mapping: the remap arithmetic, and what every operation does with ids on the way in
    (context, setattr owner) and on the way out (entries, attributes, readdirplus, mount roots). *)
 From Coq Require Import List NArith Bool Lia.
-From FB Require Import Model.Pseudo Gen.VfsTable Model.Vfs Proofs.VfsCodec Proofs.VfsAlloc Proofs.VfsInv Proofs.VfsRouting.
+From FB Require Import Model.Pseudo Gen.VfsTable Model.Vfs Proofs.VfsCodec Proofs.VfsAlloc Proofs.VfsInv Proofs.VfsRouting Proofs.PseudoWalk.
 Import ListNotations.
 Local Open Scope N_scope.
 
@@ -102,20 +102,24 @@ Qed.
 (* every backend call of a request carries the caller's ids translated external -> internal with the mapping
    selected by the header nodeid *)
 Theorem ctx_in : forall s hdr c o a r evs, vfs_request s hdr c o a = (r, evs) ->
-  Forall (fun ev => Some (ev_cuid ev) = to_int (effective_mapping s (fs_idx hdr)) (c_uid c) /\
-                    Some (ev_cgid ev) = to_int (effective_mapping s (fs_idx hdr)) (c_gid c)) evs.
+  Forall (fun ev => Some (ev_cuid ev) = to_int (effective_mapping s (ctx_idx s hdr)) (c_uid c) /\
+                    Some (ev_cgid ev) = to_int (effective_mapping s (ctx_idx s hdr)) (c_gid c)) evs.
 Proof.
   intros s hdr c o a r evs H. unfold vfs_request, srv_remap_ctx in H.
-  destruct (to_int (effective_mapping s (fs_idx hdr)) (c_uid c)) as [u|]; [|nil H].
-  destruct (to_int (effective_mapping s (fs_idx hdr)) (c_gid c)) as [g|]; [|nil H].
+  destruct (to_int (effective_mapping s (ctx_idx s hdr)) (c_uid c)) as [u|]; [|nil H].
+  destruct (to_int (effective_mapping s (ctx_idx s hdr)) (c_gid c)) as [g|]; [|nil H].
   eapply Forall_impl; [|exact (vfs_op_ctx _ _ _ _ _ _ H)]. cbn. intros ev [A B]. rewrite A, B. auto.
 Qed.
 
-(* the header nodeid selects the serving mount's own mapping whenever it names a mount slot directly *)
-Lemma hdr_slot s n b idx i : eff s n = Some (b, idx, i) -> fs_idx n <> 0 -> idx = fs_idx n.
+(* the header nodeid selects the mapping of the slot that serves it: its own index bits, or the index of the mount
+   at "/" for nodeid 1 *)
+Lemma hdr_slot s n b idx i : eff s n = Some (b, idx, i) -> ctx_idx s n = idx.
 Proof.
-  unfold eff. destruct (fs_idx n =? 0) eqn:E; [apply N.eqb_eq in E; contradiction|].
-  destruct (aget (fs_idx n) (v_sb s)); intros H; inversion H. reflexivity.
+  unfold eff, ctx_idx. destruct (fs_idx n =? 0) eqn:E0; cbn [andb].
+  - destruct (ino_of n =? ROOT_ID); [|discriminate].
+    destruct (aget ROOT_ID (v_mps s)) as [mnt|]; [|discriminate].
+    destruct (aget (mp_idx mnt) (v_sb s)); intros H; inversion H. reflexivity.
+  - destruct (aget (fs_idx n) (v_sb s)); intros H; inversion H. reflexivity.
 Qed.
 
 (* the protocol's header nodeid of a request *)
@@ -126,37 +130,26 @@ Definition hdr_of (o : op) : N :=
   | OBatchForget _ _ | OUnfwd _ => 0
   end.
 
-(* the full claim: the backend sees the ids translated with the mapping of the mount that serves the request *)
-Definition in_full : Prop := forall s c o a r evs b idx i, reachable s -> eff s (hdr_of o) = Some (b, idx, i) ->
-  vfs_request s (hdr_of o) c o a = (r, evs) ->
-  Forall (fun ev => Some (ev_cuid ev) = to_int (effective_mapping s idx) (c_uid c) /\
-                    Some (ev_cgid ev) = to_int (effective_mapping s idx) (c_gid c)) evs.
-
-(* holds whenever the header nodeid is not nodeid 1 standing for a root mount *)
-Theorem in_partial : forall s c o a r evs b idx i, eff s (hdr_of o) = Some (b, idx, i) -> fs_idx (hdr_of o) <> 0 ->
+(* the backend sees the caller's ids translated with the mapping of the mount that serves the request *)
+Theorem in_full : forall s c o a r evs b idx i, eff s (hdr_of o) = Some (b, idx, i) ->
   vfs_request s (hdr_of o) c o a = (r, evs) ->
   Forall (fun ev => Some (ev_cuid ev) = to_int (effective_mapping s idx) (c_uid c) /\
                     Some (ev_cgid ev) = to_int (effective_mapping s idx) (c_gid c)) evs.
 Proof.
-  intros s c o a r evs b idx i He Hz H. rewrite (hdr_slot _ _ _ _ _ He Hz). eapply ctx_in. exact H.
+  intros s c o a r evs b idx i He H. rewrite <- (hdr_slot _ _ _ _ _ He). eapply ctx_in. exact H.
 Qed.
 
-(* refuted: a root mount with its own mapping; a request on nodeid 1 is served by it but the context was
-   translated with the global mapping (none here): the backend sees uid 100005 instead of 5 *)
+(* a root mount with its own mapping; a request on nodeid 1 from external uid 100005 reaches it as uid 5 *)
 Definition ex_rootmap : vfs :=
   fst (fst (vfs_mount (vfs_new default_opts false) 10 (mkPath true []) (Some (0, 100000, 65536)) (mkMA 0 1 0 0 0 1000 0))).
-Theorem in_refuted : ~ in_full.
+Example in_root_mount : reachable ex_rootmap /\ eff ex_rootmap 1 = Some (10, 1, 1) /\
+  map (fun ev => (ev_bid ev, ev_cuid ev, ev_cgid ev))
+      (snd (vfs_request ex_rootmap 1 (mkC 100005 100006) (OGetattr 1) (mkAns 0 (mkE 0 0 0 0 0) (mkA 1 0 0 0) 0 []))) = [(10, 5, 6)].
 Proof.
-  intros F.
-  assert (R : reachable ex_rootmap).
-  { unfold ex_rootmap. eapply R_mount; [apply R_new|apply triple_eta]. }
-  pose (c := mkC 100005 100005). pose (a := mkAns 0 (mkE 0 0 0 0 0) (mkA 1 0 0 0) 0 []).
-  specialize (F ex_rootmap c (OGetattr 1) a (fst (vfs_request ex_rootmap 1 c (OGetattr 1) a))
-                (snd (vfs_request ex_rootmap 1 c (OGetattr 1) a)) 10 1 1 R).
-  assert (E1 : eff ex_rootmap (hdr_of (OGetattr 1)) = Some (10, 1, 1)) by (vm_compute; reflexivity).
-  specialize (F E1 (surjective_pairing _)).
-  vm_compute in F. inversion F as [|x l Hx _]. destruct Hx as [Hx _]. vm_compute in Hx. discriminate Hx.
+  split; [|vm_compute; split; reflexivity].
+  unfold ex_rootmap. eapply R_mount; [apply R_new|apply triple_eta].
 Qed.
+
 
 (* ---------- in: owner ids to be set (setattr) ---------- *)
 Theorem setattr_in : forall s c n u g a r ev evs, wf s -> vfs_op s c (OSetattr n u g) a = (r, ev :: evs) ->
@@ -342,10 +335,10 @@ Proof.
   exact (convert_entry_ids _ _ _ _ _ Ec).
 Qed.
 
-(* at mount time the root entry is translated once, with the mapping then in force for the new slot: the one
-   given with the mount, else whatever the slot's table entry holds, else the global one *)
+(* at mount time the root entry is translated once, with the mapping of the new mount: the one given with the
+   mount, else the global one -- whatever a previous occupant of the slot left behind is overwritten *)
 Theorem mount_root_translated : forall s bid p map a s' idx evs, vfs_mount s bid p map a = (s', VOk idx, evs) ->
-  effective_mapping s' idx = (match map with Some x => Some x | None => effective_mapping s idx end) /\
+  effective_mapping s' idx = (match map with Some x => Some x | None => v_gmap s end) /\
   exists pino m, aget pino (v_mps s') = Some m /\ mp_idx m = idx /\ mp_ino m = ma_ino a /\
                  ids_out s' idx (ma_uid a) (ma_gid a) (e_uid (mp_entry m)) (e_gid (mp_entry m)).
 Proof.
@@ -355,12 +348,13 @@ Proof.
   destruct (v_init s && negb (ma_init_err a =? 0)); [intros H; inversion H|].
   destruct (allocate_fs_idx s) as [[i| |] nx]; try (intros H; inversion H; fail).
   set (s1 := with_next s nx).
-  set (s2 := match map with Some m => with_maps s1 (aset i m (v_maps s1)) | None => s1 end).
+  set (s2 := with_maps s1 (match map with Some m => aset i m (v_maps s1) | None => adel i (v_maps s1) end)).
   destruct (insert_mount s2 bid (root_entry_of a) i p) as [s3 [[]|?|]] eqn:Ei; try (intros H; inversion H; fail).
   intros H. inversion H; subst s3 i. clear H.
   destruct (insert_mount_root _ _ _ _ _ _ Ei) as (Hm & Hg & pino & m & A & B & C & D).
-  assert (E2 : effective_mapping s2 idx = match map with Some x => Some x | None => effective_mapping s idx end).
-  { unfold s2, s1, effective_mapping. destruct map; cbn [v_maps v_gmap with_maps with_next]; [rewrite aget_aset_same|]; reflexivity. }
+  assert (E2 : effective_mapping s2 idx = match map with Some x => Some x | None => v_gmap s end).
+  { unfold s2, s1, effective_mapping. cbn [v_maps v_gmap with_maps with_next].
+    destruct map; [rewrite aget_aset_same|rewrite aget_adel_same]; reflexivity. }
   assert (E3 : effective_mapping s' idx = effective_mapping s2 idx).
   { unfold effective_mapping. rewrite Hm, Hg. reflexivity. }
   split; [rewrite E3; exact E2|]. exists pino, m. repeat split; try assumption.
@@ -368,69 +362,71 @@ Proof.
   - unfold ids_out in *. rewrite E3. exact (proj2 D).
 Qed.
 
-(* lookup across a mount point translates the stored (already translated) root entry again *)
-Lemma lookup_crossing_ids s n nm ino m e : ps_lookup (v_ps s) (ino_of n) nm = Ok ino -> aget ino (v_mps s) = Some m ->
-  lookup_pseudo s n nm = Ok e ->
-  ids_out s (mp_idx m) (e_uid (mp_entry m)) (e_gid (mp_entry m)) (e_uid e) (e_gid e).
+
+(* lookup across a mount point hands the stored root entry out unchanged (as readdirplus does) *)
+Theorem root_out_full : forall s n nm ino m e,
+  ps_lookup (v_ps s) (ino_of n) nm = Ok ino -> aget ino (v_mps s) = Some m -> lookup_pseudo s n nm = Ok e ->
+  e = mp_entry m.
 Proof.
-  intros Hl Hm. unfold lookup_pseudo. rewrite Hl. cbn [bind]. rewrite Hm. apply convert_entry_ids.
+  intros s n nm ino m e Hl Hm. unfold lookup_pseudo. rewrite Hl. cbn [bind]. rewrite Hm. intros H. inversion H. reflexivity.
 Qed.
 
-Definition root_out_full : Prop := forall s n nm ino m e, reachable s ->
-  ps_lookup (v_ps s) (ino_of n) nm = Ok ino -> aget ino (v_mps s) = Some m -> lookup_pseudo s n nm = Ok e ->
-  e_uid e = e_uid (mp_entry m) /\ e_gid e = e_gid (mp_entry m).
-
-(* holds when the stored ids are not themselves inside the internal range of the slot's mapping *)
-Theorem root_out_partial : forall s n nm ino m e,
-  ps_lookup (v_ps s) (ino_of n) nm = Ok ino -> aget ino (v_mps s) = Some m -> lookup_pseudo s n nm = Ok e ->
-  to_ext (effective_mapping s (mp_idx m)) (e_uid (mp_entry m)) = Some (e_uid (mp_entry m)) ->
-  to_ext (effective_mapping s (mp_idx m)) (e_gid (mp_entry m)) = Some (e_gid (mp_entry m)) ->
-  e_uid e = e_uid (mp_entry m) /\ e_gid e = e_gid (mp_entry m).
-Proof.
-  intros s n nm ino m e Hl Hm He Hu Hg. destruct (lookup_crossing_ids _ _ _ _ _ _ Hl Hm He) as [A B].
-  rewrite Hu in A. rewrite Hg in B. inversion A. inversion B. auto.
-Qed.
-
-(* refuted: global mapping (0, 1000, 65536), backend root owned by 5:6; stored 1005:1006, lookup says 2005:2006 *)
+(* global mapping (0, 1000, 65536), backend root owned by 5:6: stored and looked up as 1005:1006 *)
 Definition ex_double : vfs :=
   fst (fst (vfs_mount (vfs_new (mkO 0 default_out_opts true true false false false false (0, 1000, 65536)) false)
                       10 (mkPath true [CNorm 1]) None (mkMA 0 1 5 6 0 1000 0))).
-Theorem root_out_refuted : ~ root_out_full.
+Example root_out_once : reachable ex_double /\
+  lookup_pseudo ex_double 1 (NNorm 1) = Ok (mkE (mk_vino 1 1) (mk_vino 1 1) 1005 1006 0).
 Proof.
-  intros F.
-  assert (R : reachable ex_double).
-  { unfold ex_double. eapply R_mount; [apply R_new|apply triple_eta]. }
-  destruct (F ex_double 1 (NNorm 1) 2 (mkMp 1 1 (mkE (mk_vino 1 1) (mk_vino 1 1) 1005 1006 0))
-              (mkE (mk_vino 1 1) (mk_vino 1 1) 2005 2006 0) R) as [A _]; try (vm_compute; reflexivity).
-  vm_compute in A. discriminate A.
+  split; [|vm_compute; reflexivity].
+  unfold ex_double. eapply R_mount; [apply R_new|apply triple_eta].
 Qed.
 
-(* pseudo directories: lookup translates their owner (internal 0:0) with the mapping of index 0 (the global one),
-   getattr and readdirplus report 0:0 untranslated *)
-Definition pseudo_owner_full : Prop := forall s n nm ino e x, reachable s -> fs_idx n = 0 ->
+(* pseudo directories (internal owner 0:0): lookup, getattr and readdirplus all translate the owner with the
+   mapping of index 0; lookup and getattr of the same directory agree *)
+Theorem pseudo_owner_full : forall s c a n nm ino e x evs, fs_idx n = 0 ->
   ps_lookup (v_ps s) (ino_of n) nm = Ok ino -> aget ino (v_mps s) = None ->
-  lookup_pseudo s n nm = Ok e -> ps_getattr (v_ps s) ino = Ok x ->
-  e_uid e = a_uid (pseudo_attr x) /\ e_gid e = a_gid (pseudo_attr x).
-
-Theorem pseudo_owner_partial : forall s n nm ino e x, fs_idx n = 0 ->
-  ps_lookup (v_ps s) (ino_of n) nm = Ok ino -> aget ino (v_mps s) = None ->
-  lookup_pseudo s n nm = Ok e -> ps_getattr (v_ps s) ino = Ok x ->
-  to_ext (effective_mapping s 0) 0 = Some 0 ->
-  e_uid e = a_uid (pseudo_attr x) /\ e_gid e = a_gid (pseudo_attr x).
+  lookup_pseudo s n nm = Ok e ->
+  vfs_op s c (OGetattr (e_ino e)) a = (Ok (RAttr x), evs) ->
+  evs = [] /\ a_uid x = e_uid e /\ a_gid x = e_gid e /\ a_ino x = e_ino e.
 Proof.
-  intros s n nm ino e x Hz Hl Hm He Hx H0. unfold lookup_pseudo in He. rewrite Hl in He. cbn [bind] in He.
-  rewrite Hm, Hz in He. destruct (convert_entry_ids _ _ _ _ _ He) as [A B]. cbn [pseudo_entry e_uid e_gid] in A, B.
-  rewrite H0 in A, B. inversion A. inversion B. cbn. auto.
+  intros s c a n nm ino e x evs Hz Hl Hm He Hg.
+  unfold lookup_pseudo in He. rewrite Hl in He. cbn [bind] in He. rewrite Hm, Hz in He.
+  destruct (convert_entry_ids _ _ _ _ _ He) as [A B]. cbn [pseudo_entry e_uid e_gid] in A, B.
+  destruct (convert_entry_shape _ _ _ _ _ He) as (Ei & _ & Hle & _).
+  assert (Hnz : ino <> 0).
+  { unfold ps_lookup in Hl. destruct (aget (ino_of n) (ps_inodes (v_ps s))); [|discriminate].
+    destruct nm; try discriminate;
+    match type of Hl with (if ?c then _ else _) = _ => destruct c eqn:E0 end; try discriminate;
+    inversion Hl; subst; apply N.eqb_neq in E0; exact E0. }
+  assert (E0 : ino =? 0 = false) by (apply N.eqb_neq; exact Hnz). rewrite E0 in Ei.
+  pose proof (pseudo_ino_codec ino Hle) as Hcodec.
+  destruct Hcodec as (Hf & Hi & Hmk). rewrite Hmk in Ei. rewrite Ei in *.
+  cbn [vfs_op] in Hg. unfold get_real_rootfs in Hg. rewrite Hf, Hi in Hg. cbn [N.eqb] in Hg.
+  assert (G : (if ino =? ROOT_ID then match aget ROOT_ID (v_mps s) with
+                 | Some mnt => bind (get_fs_by_idx s (mp_idx mnt)) (fun b =>
+                     if N.land (mp_ino mnt) (N.lnot VFS_MAX_INO 64) =? 0
+                     then Ok (SRight b (mp_idx mnt) (mk_vino (mp_idx mnt) (mp_ino mnt))) else Panic)
+                 | None => Ok (SLeft ino) end else Ok (SLeft ino)) = Ok (SLeft ino)).
+  { destruct (ino =? ROOT_ID) eqn:E1; [|reflexivity]. apply N.eqb_eq in E1. rewrite <- E1, Hm. reflexivity. }
+  change (0 =? 0) with true in Hg. cbv iota in Hg. rewrite G in Hg. rewrite Hi in Hg.
+  unfold ps_getattr in Hg. destruct (aget ino (ps_inodes (v_ps s))); [|discriminate]. cbn [bind] in Hg.
+  rewrite Hf in Hg. destruct (convert_attr s ino 0 (pseudo_attr ino)) as [x'| |] eqn:Ec; try discriminate.
+  cbn [bind] in Hg. inversion Hg; subst x' evs. destruct (convert_attr_ids _ _ _ _ _ Ec) as [C D].
+  cbn [pseudo_attr a_uid a_gid] in C, D.
+  assert (Hx : a_ino x = ino).
+  { unfold convert_attr in Ec. destruct (to_ext (effective_mapping s 0) (a_uid (pseudo_attr ino))); [|discriminate].
+    destruct (to_ext (effective_mapping s 0) (a_gid (pseudo_attr ino))); [|discriminate]. inversion Ec. reflexivity. }
+  split; [reflexivity|]. rewrite <- C in A. rewrite <- D in B. inversion A. inversion B. auto.
 Qed.
 
 Definition ex_gmap : vfs :=
   fst (fst (vfs_mount (vfs_new (mkO 0 default_out_opts true true false false false false (0, 1000, 65536)) false)
                       10 (mkPath true [CNorm 1; CNorm 2]) None (mkMA 0 1 5 6 0 1000 0))).
-Theorem pseudo_owner_refuted : ~ pseudo_owner_full.
+Example pseudo_owner_translated : reachable ex_gmap /\
+  lookup_pseudo ex_gmap 1 (NNorm 1) = Ok (mkE 2 2 1000 1000 0) /\
+  fst (vfs_op ex_gmap (mkC 0 0) (OGetattr 2) (mkAns 0 (mkE 0 0 0 0 0) (mkA 0 0 0 0) 0 [])) = Ok (RAttr (mkA 2 1000 1000 0)).
 Proof.
-  intros F.
-  assert (R : reachable ex_gmap).
-  { unfold ex_gmap. eapply R_mount; [apply R_new|apply triple_eta]. }
-  destruct (F ex_gmap 1 (NNorm 1) 2 (mkE 2 2 1000 1000 0) 2 R) as [A _]; try (vm_compute; reflexivity).
-  vm_compute in A. discriminate A.
+  split; [|vm_compute; split; reflexivity].
+  unfold ex_gmap. eapply R_mount; [apply R_new|apply triple_eta].
 Qed.
